@@ -250,7 +250,7 @@ def run(ctx):
         ctx.finding("crystal:%d:%s" % (b["group"], b["complaints"][0][:40]), "group %d: %s" % (b["group"], b["complaints"][0]), {"kind": "failing-input", "case": b})
     import analyzer_hist
     analyzer_hist.check(ctx, "C12", broken)
-    if broken and not ctx.findings:
+    if broken and not ctx.unknown_findings():
         import sym_common as S
         import crystals
         N = S.norm_tables()
@@ -267,7 +267,7 @@ def run(ctx):
                 nd += 1
                 ctx.finding("crystal:%d:%s" % (n, res[0][:40]), "group %d (directed, letter %s): %s" % (n, meta["letter"], res[0]),
                             {"kind": "failing-input", "case": {"group": n, "complaints": res, "atoms": crystals.atoms_to_json(a2), "presentation": meta}})
-    if broken and not ctx.findings:
+    if broken and not ctx.unknown_findings():
         ctx.finding("unproved", "proof/correspondence broken, no failing crystal found", {"kind": "broken-obligation", "broken": broken}, found_input=False)
     ctx.coverage["broken"] = [{"what": k, "info": i} for k, i in broken]
     ctx.coverage["correspondence_mismatches"] = len(mism)
